@@ -196,9 +196,13 @@ def _iter_files_in_path(
         # as indicated by us no longer being in a subdirectory of them.
         # NOTE: Slice so we can modify as we go.
         for inner_dirname, inner_file, inner_spec in inner_ignore_specs[:]:
+            # NOTE: Compare absolute paths on both sides, `dirname` is relative
+            # whenever the path we're walking was given as a relative path.
             if not (
                 dirname == inner_dirname
-                or dirname.startswith(os.path.abspath(inner_dirname) + os.sep)
+                or os.path.abspath(dirname).startswith(
+                    os.path.abspath(inner_dirname) + os.sep
+                )
             ):
                 inner_ignore_specs.remove((inner_dirname, inner_file, inner_spec))
 
